@@ -528,6 +528,21 @@ func (e *cryptEnv) attempt(cs cryptCase, class, expect string, recv *cryptParty,
 		r.Violation(key, fmt.Sprintf("DecryptMessage returned success with a message different from the original (%s)", where), e.witness(cs, class, key, recv, orig, env))
 		return "violation"
 	}
+	// the same envelope into a message the receiver has used before: the result must still be exactly
+	// the original, nothing of the earlier content may survive
+	used := cryptMsg(typ, "rand", int64(len(env))*31+7)
+	var derr2 error
+	if p, st := engine.Guard(func() { derr2 = nodeenrollment.DecryptMessage(e.ctx, env, recv.prod, used) }); p != nil {
+		key := "panic:" + engine.LibraryFrame(st)
+		r.Violation(key, fmt.Sprintf("DecryptMessage panicked when given a used result message (%s): %v", where, p), e.witness(cs, class, key, recv, orig, env))
+		return "violation"
+	}
+	r.Count("decrypted_into_a_previously_used_result_message", 1)
+	if derr2 != nil || !proto.Equal(orig, used) {
+		key := "different-plaintext:reused-result-message"
+		r.Violation(key, fmt.Sprintf("DecryptMessage into a result message that already held other content returned err=%v and a message different from the original (%s)", derr2, where), e.witness(cs, class, key, recv, orig, env))
+		return "violation"
+	}
 	return "original"
 }
 
